@@ -535,3 +535,5 @@ def reset_world():
 
 
 install_clock()
+threading.excepthook = lambda args: None      # program threads may die on purpose; never print
+sys.unraisablehook = lambda *a: None              # e.g. "generator ignored GeneratorExit" from host programs
